@@ -10,6 +10,7 @@ TB = [
     "Lean 4.33 kernel; axioms allowed: propext, Classical.choice, Quot.sound (checked by #print axioms on every theorem)",
     "hand-written model of LCA_Database (six tables, insert, _signatures with its batching, get_lineage_assignments, get_identifiers_for_hashval, downsample_scaled, JSON save/load followed by further insertions), of its SQLite twin (save_to_sql, LineageDB_Sqlite, _build_index), of build_tree/find_lca/count_lca_for_assignments/pop_to_rank and of the summarize/classify loops, tied to /repo by the lca correspondence stream (differential testing)",
     "translator: taxlist(), NCBI_RANKS, the SQL column orders, the comparison and threshold expression of downsample_scaled, the _signatures batch constant, the threshold comparisons of summarize/classify are re-read from the source on every run; LineageTree.add_lineage/find_lca are checked to be the same statements as lca_utils.build_tree/find_lca (AST comparison)",
+    "the name -> identifier derivation of the SQLite form (name.split(' ')[0], name.split('.')[0]) is modelled by a structurally recursive function on characters (headUntil); on every `sig` op the Lean driver compares it with String.splitOn and the stream compares the resulting identifiers with Python's split",
     "`minhash.downsample(scaled=S).hashes` is modelled as the sketch's hashes <= max_hash (C01/C03's subject); Python dict ordering is modelled as insertion order; the iteration order of Python sets (the idx sets of _hashval_to_idx, rebuilt with set(list) by load) is a CPython artefact: the model keeps first-insertion order and every observation that comes out of a set (lineage lists, identifier lists, hash values, signatures) is sorted on both sides; json, sqlite3, gzip, the filesystem are trusted",
 ]
 AS = [
